@@ -587,10 +587,12 @@ Ftp::Client::handleEpsvReply(Ip::Address &remoteAddr)
     buf = ctrl.last_reply + strcspn(ctrl.last_reply, "(");
 
     char h1, h2, h3, h4;
-    unsigned short port;
-    int n = sscanf(buf, "(%c%c%c%hu%c)", &h1, &h2, &h3, &port, &h4);
+    // long: a number that does not fit must stay out of range instead of being truncated to 16 bits
+    long port = 0;
+    int n = sscanf(buf, "(%c%c%c%ld%c)", &h1, &h2, &h3, &port, &h4);
 
-    if (n < 4 || h1 != h2 || h1 != h3 || h1 != h4) {
+    // all five conversions are needed: h4 is not set otherwise
+    if (n < 5 || h1 != h2 || h1 != h3 || h1 != h4) {
         debugs(9, DBG_IMPORTANT, "ERROR: Invalid EPSV reply from " <<
                ctrl.conn->remote << ": " <<
                ctrl.last_reply);
@@ -598,7 +600,7 @@ Ftp::Client::handleEpsvReply(Ip::Address &remoteAddr)
         return sendPassive();
     }
 
-    if (0 == port) {
+    if (port <= 0 || port > 65535) {
         debugs(9, DBG_IMPORTANT, "Unsafe EPSV reply from " <<
                ctrl.conn->remote << ": " <<
                ctrl.last_reply);
@@ -617,7 +619,7 @@ Ftp::Client::handleEpsvReply(Ip::Address &remoteAddr)
     }
 
     remoteAddr = ctrl.conn->remote;
-    remoteAddr.port(port);
+    remoteAddr.port(static_cast<unsigned short>(port));
     data.addr(remoteAddr);
     return true;
 }
